@@ -90,6 +90,7 @@ type caseT struct {
 }
 
 func main() {
+	time.Local = time.FixedZone("UTC+13", 13*3600) // the process does not live in UTC
 	r := lib.Start("C06", "exploration")
 	r.Rule = "product of scheme {notary.x509, signingAuthority} x format x 8 chain window placements (leaf / issuer / trust anchor each valid around now, expired, not yet valid) x signing time (inside / before all windows; signing authority also after) x expiry {none, past, future} x tsa store listed x verifyTimestamp {unset, always, afterCertExpiry} x countersignature {absent, good, wrong message, untrusted TSA, TSA root only in a ca store, EKU missing / extra / non-critical, key usage without digitalSignature, TSA certificate that is a CA, tsa store unloadable / empty, TSA revoked / unknown / validator error, gen-time before / inside / after the windows, accuracy straddling the lower / upper window edge, accuracy just inside}; quick = x509/JWS full + the other three combinations on a covering subset, thorough = full; distinct by the tuple; non-trivial = anything but (valid chain, no expiry, no tsa store)"
 	r.Assumptions = []string{"all generated instants are >= 5 days away from now; the boundary 'expiry == now' is unreachable without a clock hook",
